@@ -110,7 +110,7 @@ type Result struct {
 }
 
 func NewResult(prop string) *Result {
-	return &Result{Property: prop, Distribution: map[string]int{}, distinct: map[string]bool{}}
+	return &Result{Property: prop, Distribution: map[string]int{}, distinct: map[string]bool{}, OracleFailures: []Failure{}, Samples: []any{}, CaseInputs: []any{}, Notes: []string{}}
 }
 func (r *Result) Count(key string) { r.Distribution[key]++ }
 
